@@ -9,6 +9,7 @@ package PKG
 import (
 	"encoding/hex"
 	"fmt"
+	"runtime"
 	"strconv"
 )
 
@@ -124,6 +125,27 @@ func ndString(name string, max int) string {
 // ndBytesEqual: content equality of two byte strings.
 func ndBytesEqual(a, b []byte) bool { return string(a) == string(b) }
 
+// ndConcrete: the same value; symbolically the path is split per feasible value (<= 64) so
+// that what depends on it (offsets, lengths) is concrete on each path.
+func ndConcrete(x int) int { return x }
+
+// ndCopyBytes: a fresh copy of b.
+func ndCopyBytes(b []byte) []byte { return append([]byte{}, b...) }
+
+// ndAllocMark / ndAllocSince: bytes requested by allocation sites of the code under test
+// (symbolic: sum over own-code make() sites; native: runtime.MemStats.TotalAlloc delta).
+func ndAllocMark() uint64 {
+	var m runtime.MemStats
+	runtime.ReadMemStats(&m)
+	return m.TotalAlloc
+}
+
+func ndAllocSince(mark uint64) uint64 {
+	var m runtime.MemStats
+	runtime.ReadMemStats(&m)
+	return m.TotalAlloc - mark
+}
+
 // ndName builds an indexed variable name.
 func ndName(prefix string, i int) string { return prefix + "[" + strconv.Itoa(i) + "]" }
 
@@ -152,6 +174,10 @@ func ndCover(id string, c bool) {
 		verifCovered = append(verifCovered, id)
 	}
 }
+
+// ndCoverSym: a cover that refers to stub-internal ghost state (exists only symbolically);
+// natively it is enough that the model's run completes.
+func ndCoverSym(id string, c bool) {}
 
 // ndTry runs f and reports whether it panicked.
 func ndTry(f func()) (panicked bool) {
